@@ -66,6 +66,12 @@ var testLib = func() *r.Library {
 func libs() []*r.Library { return append([]*r.Library{testLib}, h.Libs()...) }
 
 func workerLoop() {
+	// file-mode programs are written below the worker's own scratch directory (relative
+	// paths, so that rendered errors do not differ between processes)
+	if d, err := os.MkdirTemp("", "verif-c16w-*"); err == nil {
+		os.Chdir(d)
+		defer os.RemoveAll(d)
+	}
 	in := bufio.NewReaderSize(os.Stdin, 1<<20)
 	shared := exec.NewInterpreter("verif").SetExternalLibs(libs())
 	realOut := os.Stdout
@@ -97,6 +103,18 @@ func runJob(j job, shared *exec.Interpreter) result {
 			if !j.Shared {
 				z = exec.NewInterpreter("verif").SetExternalLibs(libs())
 			}
+			if mainSrc, mods, isFile := splitFileProg(j.Src); isFile {
+				os.RemoveAll("p")
+				os.MkdirAll("p", 0o755)
+				os.WriteFile(filepath.Join("p", "主程序.zn"), []byte(mainSrc), 0o644)
+				for name, src := range mods {
+					path := filepath.Join("p", filepath.Join(strings.Split(name, "-")...)+".zn")
+					os.MkdirAll(filepath.Dir(path), 0o755)
+					os.WriteFile(path, []byte(src), 0o644)
+				}
+				val, err = z.LoadFile(filepath.Join("p", "主程序.zn")).Execute(r.ElementMap{})
+				return
+			}
 			val, err = z.LoadScript([]rune(j.Src)).Execute(r.ElementMap{})
 		})
 	})
@@ -119,6 +137,32 @@ func runJob(j job, shared *exec.Interpreter) result {
 		res.Kind, res.Type, res.Text = o.Kind, o.ValType, o.ValText
 	}
 	return res
+}
+
+// fileProg - a program executed from files (Interpreter.LoadFile) with modules next to it,
+// encoded in one string: "#file\n" main "\n#module NAME\n" source ...
+func fileProg(main string, mods ...string) string {
+	s := "#file\n" + main
+	for i := 0; i+1 < len(mods); i += 2 {
+		s += "\n#module " + mods[i] + "\n" + mods[i+1]
+	}
+	return s
+}
+
+func splitFileProg(src string) (string, map[string]string, bool) {
+	if !strings.HasPrefix(src, "#file\n") {
+		return src, nil, false
+	}
+	parts := strings.Split(strings.TrimPrefix(src, "#file\n"), "\n#module ")
+	mods := map[string]string{}
+	for _, p := range parts[1:] {
+		nl := strings.Index(p, "\n")
+		if nl < 0 {
+			continue
+		}
+		mods[p[:nl]] = p[nl+1:]
+	}
+	return parts[0], mods, true
 }
 
 // runInFreshWorker - execute the jobs in one fresh process
@@ -188,6 +232,12 @@ var probes = []string{
 	"输出（取随机数） >= 0",
 	"输出显示",
 	"输出异常",
+	// programs run from files, importing modules that lie next to them
+	fileProg("导入“工具”\n输出（加一：41）", "工具", "如何加一？\n    输入数\n    输出数 + 1"),
+	fileProg("导入“工具”\n导入“库-甲”\n输出【（加一：1），（甲法）】", "工具", "如何加一？\n    输入数\n    输出数 + 1", "库-甲", "导入“库-乙”\n如何甲法？\n    输出（乙法） + 1", "库-乙", "如何乙法？\n    输出10"),
+	fileProg("导入“工具”之加一\n输出（加一：1）", "工具", "令内部 = 【1，2】\n如何加一？\n    输入数\n    以内部（后增：数）\n    输出内部"),
+	fileProg("导入“无此模块”\n输出1"),
+	fileProg("导入“坏”\n输出1", "坏", "输出1 / 0"),
 }
 
 var mutators = []string{"自增", "自减", "加", "减", "乘", "除", "向下取整", "向上取整", "转换数值", "后增", "前增", "写入", "移除", "替换", "格式化", "拼接", "新增", "合并", "无此法"}
@@ -198,7 +248,7 @@ func genPolluter(t *rapid.T) string {
 	arg := func() string {
 		return rapid.SampledFrom([]string{"1", "41", "“a”", "【1】", "真", "数值", "-0.5"}).Draw(t, "parg")
 	}
-	switch rapid.IntRange(0, 11).Draw(t, "pk") {
+	switch rapid.IntRange(0, 13).Draw(t, "pk") {
 	case 0: // redefine the constructor of a predefined / library type
 		cls := rapid.SampledFrom([]string{"异常", "异常", "HTTP响应", "HTTP请求", "数值", "显示"}).Draw(t, "ccls")
 		imp := ""
@@ -250,6 +300,20 @@ func genPolluter(t *rapid.T) string {
 		return "令数 = 数值\n以数（自增：7）\n令数二 = 数值\n输出【数，数二，数值】"
 	case 9: // custom exception named like the built-in's property, thrown and caught
 		return "定义错：\n    其内容 = “x”\n如何新建错？\n    输入甲\n    其内容 = 甲\n抛出错：“自定义”！\n拦截错：\n    输出其内容"
+	case 11, 12: // programs run from files: the same module names with other contents, cycles, failures
+		tool := rapid.SampledFrom([]string{"如何加一？\n    输入数\n    输出数 + 100", "如何加一？\n    输入数\n    输出数 + 1", "令内部 = 【9】\n如何加一？\n    输入数\n    以内部（后增：数）\n    输出内部", "输出1 / 0", "如何别的？\n    输出0"}).Draw(t, "tool")
+		switch rapid.IntRange(0, 4).Draw(t, "fk") {
+		case 0:
+			return fileProg("导入“工具”\n输出（加一：5）", "工具", tool)
+		case 1:
+			return fileProg("导入“工具”\n导入“库-甲”\n输出（甲法）", "工具", tool, "库-甲", "导入“库-乙”\n如何甲法？\n    输出（乙法） + 7", "库-乙", "如何乙法？\n    输出70")
+		case 2:
+			return fileProg("导入“库-甲”\n输出1", "库-甲", "导入“库-乙”\n如何甲法？\n    输出1", "库-乙", "导入“库-甲”\n如何乙法？\n    输出2")
+		case 3:
+			return fileProg("导入“无此模块”\n输出1")
+		default:
+			return fileProg("导入“坏”\n输出1", "坏", tool, "工具", tool)
+		}
 	case 10: // syntax errors
 		return rapid.SampledFrom([]string{"令", "如果真：", "（显示：", "“未闭合", "令甲 = 1\n    令乙 = 2"}).Draw(t, "syn")
 	default:
@@ -394,6 +458,13 @@ func TestKnownPolluters(t *testing.T) {
 			}
 		}
 	}
+	bl := map[string]string{}
+	for _, q := range probes {
+		if b, err := baseline(q); err == nil {
+			bl[q] = normalise(b)
+		}
+	}
+	h.R.Extra("probe_outcomes_alone", bl)
 	h.R.Exhaustive("explicit-pairs", fmt.Sprintf("%d listed polluters x %d probes x shared/separate", len(polluters), len(probes)))
 }
 
@@ -403,7 +474,9 @@ func TestKnownPolluters(t *testing.T) {
 func TestConcurrentHandlers(t *testing.T) {
 	rounds := h.Scale(20, 400)
 	entry := filepath.Join(tmpDir, "entry.zn")
-	os.WriteFile(entry, []byte("输入当前请求\n令记号 = 当前请求之查询参数#“t”\n令表 = 【记号】\n以表（后增：记号）\n输出表#2"), 0o644)
+	// the entry program imports a module lying next to it (module lookup runs on every request)
+	os.WriteFile(filepath.Join(tmpDir, "工具.zn"), []byte("如何回声？\n    输入文\n    输出文"), 0o644)
+	os.WriteFile(entry, []byte("导入“工具”\n输入当前请求\n令记号 = 当前请求之查询参数#“t”\n令表 = 【记号】\n以表（后增：（回声：记号））\n输出表#2"), 0o644)
 	z := exec.NewInterpreter("verif").SetExternalLibs(libs())
 	pg := server.NewZnPlaygroundHandler(z)
 	hh := server.NewZnHttpHandler(z, entry)
